@@ -1103,6 +1103,12 @@ func TestVF_C14(t *testing.T) {
 			continue
 		}
 		start := 0
+		finished := false
+		defer func(state string) {
+			if !finished {
+				run.Inconclusive(fmt.Sprintf("state %s: the child did not reach the end of its case list (crashed repeatedly or timed out); cases from index %d on were not run", state, start))
+			}
+		}(state)
 		for restart := 0; restart < 6; restart++ {
 			resF := filepath.Join(dir, fmt.Sprintf("res-%s-%d.jsonl", state, restart))
 			reqF := filepath.Join(dir, fmt.Sprintf("req-%s-%d.jsonl", state, restart))
@@ -1117,6 +1123,7 @@ func TestVF_C14(t *testing.T) {
 			run.Count("children", 1)
 			done, lastCase := c14Absorb(run, state, resF)
 			if err == nil && done {
+				finished = true
 				break
 			}
 			// the child died: attribute to the last logged request
